@@ -17,6 +17,8 @@ pub mod ptrace_dumper;
 pub(crate) mod sections;
 mod serializers;
 pub mod thread_info;
+#[cfg(feature = "verif-hooks")]
+pub mod verif_hooks;
 
 pub use maps_reader::LINUX_GATE_LIBRARY_NAME;
 pub type Pid = i32;
